@@ -205,6 +205,10 @@ def make_instance(rng, klass):
     n_pos = int(rng.integers(1, 7))
     n_alleles = _n_alleles(rng, n_pos)
     want = int(rng.integers(1, 8))
+    if rng.random() < 0.12:
+        # pooled / high-ploidy genotypes (e.g. three tetraploids pooled) with few haplotypes
+        ploidy = int(rng.choice([8, 9, 10, 12, 16]))
+        want = int(rng.integers(1, 4)) if ploidy <= 10 else int(rng.integers(1, 3))
     if klass == "zerofreq":
         want = max(want, 2)
     haps, _ = gen.gen_haplotype_set(rng, want, n_pos, n_alleles=n_alleles)
